@@ -55,6 +55,7 @@ type IVal struct {
 	M      map[string]IVal
 	MZero  *IVal         // ivMap: the zero value of the element type
 	F      *ssa.Function // a function value (K == ivOpaque, NonNil): the function it denotes
+	FB     []IVal        // ... and what its free variables are bound to (a function literal, a method value)
 }
 
 // mapKey renders a key value for constant-map lookups ("" when the key is not evident).
@@ -120,6 +121,8 @@ type Interp struct {
 	steps   int
 	globals map[*ssa.Global]*ICell
 	Unknown []string
+	// pendingFB: the bindings of the free variables of the closure about to run (consumed by run)
+	pendingFB []IVal
 	// OnCall lets a rule intercept calls (e.g. record writes to a buffer the evaluator does not model).
 	OnCall func(call *ssa.Call, args []IVal) (IVal, bool)
 }
@@ -465,6 +468,12 @@ func (it *Interp) run(fn *ssa.Function, args []IVal, depth int) ([]IVal, error) 
 	for i, p := range fn.Params {
 		env[p] = args[i]
 	}
+	if fb := it.pendingFB; len(fb) > 0 && len(fb) == len(fn.FreeVars) {
+		for i, fv := range fn.FreeVars {
+			env[fv] = fb[i]
+		}
+	}
+	it.pendingFB = nil
 	var get func(v ssa.Value) IVal
 	get = func(v ssa.Value) IVal {
 		if x, ok := env[v]; ok {
@@ -499,6 +508,15 @@ func (it *Interp) run(fn *ssa.Function, args []IVal, depth int) ([]IVal, error) 
 				}
 			case *ssa.Alloc:
 				env[x] = IPtr(newCell(x.Type().(*types.Pointer).Elem()))
+			case *ssa.MakeClosure:
+				// a function literal or a method value (l.unmarshalText): the function and what it closes over
+				if f, isF := x.Fn.(*ssa.Function); isF {
+					cv := IVal{K: ivOpaque, S: "func " + f.Name(), NonNil: true, F: f}
+					for _, b := range x.Bindings {
+						cv.FB = append(cv.FB, get(b))
+					}
+					env[x] = cv
+				}
 			case *ssa.Store:
 				a := get(x.Addr)
 				if a.K != ivPtr {
@@ -918,18 +936,24 @@ func (it *Interp) call(x *ssa.Call, get func(ssa.Value) IVal, depth int) (IVal, 
 		}
 	}
 	callee := x.Call.StaticCallee()
+	var freeBind []IVal
 	dynName := ""
 	if callee == nil && !x.Call.IsInvoke() {
 		// a call through a function value that is evident (an entry of a constant table of functions)
 		if fv := get(x.Call.Value); fv.F != nil {
-			if len(fv.F.Blocks) > 0 && (curProgRoot(fv.F) || fv.F.Parent() != nil && len(fv.F.FreeVars) == 0) {
+			bound := len(fv.F.FreeVars) > 0 && len(fv.FB) == len(fv.F.FreeVars) && (fv.F.Parent() != nil || strings.HasSuffix(fv.F.Name(), "$bound"))
+			if len(fv.F.Blocks) > 0 && (curProgRoot(fv.F) || fv.F.Parent() != nil && len(fv.F.FreeVars) == 0 || bound) {
 				callee = fv.F
+				if bound {
+					freeBind = fv.FB
+				}
 			} else {
 				dynName = FStr(fv.F)
 			}
 		}
 	}
-	if callee != nil && len(callee.Blocks) > 0 && (curProgRoot(callee) || callee.Parent() != nil && len(callee.FreeVars) == 0) {
+	if callee != nil && len(callee.Blocks) > 0 && (curProgRoot(callee) || callee.Parent() != nil && len(callee.FreeVars) == 0 || freeBind != nil) {
+		it.pendingFB = freeBind
 		res, err := it.run(callee, args, depth+1)
 		if err != nil {
 			return IVal{}, err
